@@ -1,6 +1,7 @@
 package checks
 
 import (
+	"bytes"
 	"fmt"
 	"reflect"
 	"strings"
@@ -104,6 +105,7 @@ func c04Prop(c *ev.Collector) func(rt *rapid.T) {
 				g.Avoid[fg.Name] = true
 			}
 		}
+		g.CutPackets = 1
 		sm := g.SwitchMessage()
 		injectONFFields(rt, g, sm.Tree)
 		addLabels(c, g.Labels)
@@ -310,6 +312,11 @@ func checkParsed(c *ev.Collector, t ev.Fataler, sm gen.SwitchMsg) {
 		}
 	})
 	fail := func(sig, detail string) {
+		if sm.Cut && strings.HasSuffix(sig, "|parse-error") {
+			// one signature: a packet-in whose data ends before the packet's headers do is refused as a whole
+			sig = "C04|packet_in|data-cut-inside-the-packet-headers|parse-error"
+			detail = fmt.Sprintf("data holds the first %d of the packet's %d bytes (%s): %s", sm.CutAt, len(sm.Pkt.Wire), sm.Pkt.Desc, detail)
+		}
 		if noCodec {
 			// one signature: every symptom in a frame that carries one of these actions has the same root cause
 			sig = "C04|std-action-decoded-as-bare-header|len4"
@@ -353,6 +360,16 @@ func checkParsed(c *ev.Collector, t ev.Fataler, sm gen.SwitchMsg) {
 	}
 	if bad := addrValues(r.m); bad != "" {
 		fail("C04|"+sm.Kind+"|address-value", bad)
+		return
+	}
+	if sm.Kind == "packet_in" && sm.Cut {
+		// what was delivered of the packet is all there is: the value must give exactly those bytes back
+		p := r.m.(*of.PacketIn)
+		want := sm.Pkt.Wire[:sm.CutAt]
+		b, fr, msg := safeMarshal(&p.Data)
+		if fr != "" || !bytes.Equal(b, want) {
+			fail("C04|packet_in|cut-packet|payload-bytes", fmt.Sprintf("the first %d bytes of %s were delivered; the parsed packet encodes to %d bytes (%s %s): %s, want %s", sm.CutAt, sm.Pkt.Desc, len(b), fr, msg, hx(b), hx(want)))
+		}
 		return
 	}
 	if sm.Kind == "packet_in" {
